@@ -76,7 +76,7 @@ def mutable_ids(qc):
 def mk_circuit(nq, gates, enhanced=False):
     from qlasskit.qcircuit import QCircuit
     from qlasskit.qcircuit.qcircuitenhanced import QCircuitEnhanced
-    qc = (QCircuitEnhanced if enhanced else QCircuit)(nq)
+    qc = (QCircuitEnhanced if enhanced else QCircuit)(nq, native="<native drawing>")     # every attribute of an operand is part of the frame
     for i, ws in enumerate(gates):
         g = Token(f"g{i}")
         p = Token(f"p{i}")
@@ -88,7 +88,8 @@ def mk_circuit(nq, gates, enhanced=False):
 
 def snapshot(qc):
     return (listview(qc.gates), listview(qc.gates_computed), dict(qc.qubit_map), qc.num_qubits,
-            [id(t[0]) for t in qc.gates], id(qc.gates))
+            [id(t[0]) for t in qc.gates], id(qc.gates),
+            sorted((k, repr(v)) for k, v in vars(qc).items() if k not in ("gates", "gates_computed", "qubit_map", "num_qubits")))
 
 
 def run_hooked(f, *a, **k):
